@@ -15,7 +15,7 @@ def py_item(it):
         a, b, c = it['v']
         return slice(a, b, c)
     if t == 'arr':
-        return np.array(it['v'], dtype=int)
+        return np.array(it['v'], dtype=ARR_DTYPE[0])
     if t == 'arr2':
         return np.array(it['v'], dtype=int)
     raise ValueError(t)
@@ -30,6 +30,7 @@ def py_idx(ix):
     return py_item(ix)
 
 
+ARR_DTYPE = [int]      # dtype used for index arrays of the current case (int64 by default, int32 = OpenMDAO's INT_DTYPE)
 REJECT = (IndexError,)
 
 
@@ -149,7 +150,10 @@ def handle_seq(c):
     created through try_slice=True and/or copied: after every step it must describe NumPy's selection
     for the CURRENT shape."""
     flat = bool(c['flat'])
-    idx = py_idx(c['idx'])
+    ARR_DTYPE[0] = np.int32 if c.get('dtype') == 'i4' else int
+    idx = py_idx(c['idx'])          # handed to OpenMDAO (which must not change the caller's arrays)
+    ref_idx = py_idx(c['idx'])      # pristine copy for the NumPy reference
+    ARR_DTYPE[0] = int
     kind = c['idx']['t']
     res, ok, msg, sig = [], True, '', ''
     try:
@@ -159,8 +163,11 @@ def handle_seq(c):
     for k, shape in enumerate(c['shapes']):
         shape = tuple(shape)
         try:
+            if c.get('fresh') and k > 0:
+                # a NEW indexer built from the SAME caller-owned index object for another source shape
+                ix = indexer(idx, flat_src=flat, try_slice=bool(c.get('try_slice')))
             ix.set_src_shape(shape)
-            om_res, np_res = observe(ix, idx, shape, flat, kind)
+            om_res, np_res = observe(ix, ref_idx, shape, flat, kind)
         except Exception as e:
             om_res, np_res = err(1), None
         res.append(om_res)
